@@ -15,7 +15,7 @@ class _NotJSONFilter(logging.Filter):
         :param record: LogRecord object containing all the information pertinent to the event being logged.
         :return: True if log message is not JSON-like, False otherwise.
         """
-        return not record.getMessage().startswith("{") and not record.getMessage().endswith("}")
+        return not (record.getMessage().startswith("{") and record.getMessage().endswith("}"))
 
 
 class SysLog:
